@@ -95,11 +95,13 @@ def allWs (w : Bytes) : Bool := w.all isWs
     (a superset of RFC 7230 `tchar`) -/
 def tokByte (c : UInt8) : Bool := c ≠ 0 && c ≠ 32 && c ≠ 9 && c ≠ 44 && c ≠ 59
 
-/-- well-formedness of one rendered parameter (decidable) -/
+/-- well-formedness of one rendered parameter (decidable): known name, OWS fields are SP/HT only,
+    a token is non-empty (RFC 7230 `token = 1*tchar`), free of NUL SP HT , ; and does not start with a
+    DQUOTE; a quoted value is free of NUL -/
 def Elem.wf (e : Elem) : Bool :=
   decide (e.item.slot < paramNames.length) && allWs e.r.ws1 && allWs e.r.ws2 && allWs e.r.ws3 && allWs e.r.ws4 &&
     (match e.r.form with
-     | .token => e.item.value.all tokByte && (e.item.value.head? != some 34)
+     | .token => e.item.value.all tokByte && (e.item.value.head? != some 34) && !e.item.value.isEmpty
      | .quoted _ => e.item.value.all (· ≠ 0))
 
 def WF (lead : Bytes) (es : List Elem) : Bool := allWs lead && es.all Elem.wf
